@@ -70,7 +70,7 @@ func init() {
 	register(&Prop{
 		ID:         "C01",
 		Title:      "Single-item operations behave as a sequential key-to-item map",
-		Decided:    "the representation invariant I1 (SortedKeys is exactly the sorted key set of Data) is preserved by every mutator on every path, and every access to Data uses the table's own key derivation: (R1) only core functions write Table.Data/SortedKeys after construction and each of them is a checked mutator; (R2) path-case analysis of each mutator: net change of Data[k] (absent→present, present→absent, overwrite) is matched by exactly the corresponding insertion (followed by a sort) or binary-search removal of k in SortedKeys, presence being established by a comma-ok lookup of the same key before the change; reset resets both; (R3) the key operand of every Data lookup/update/delete derives from keySchema.GetKey(t.KeySchema, t.AttributesDef, ·) of the same table (or, on the search path, from SortedKeys/index entries); (R4) the map stored under a key is a fresh copy (or the map already stored there), never a caller's map; (R5) UpdateItem on an absent key starts from a copy of the request key; (R7) GetItem's output derives from Data[key] with key derived from the request key, through conversion/copy only. By induction over histories I1 holds in every reachable state, which is what makes GetItem/Scan/ItemCount agree; (R8) no function on the key derivation path calls a text or number transformation (strings.*, strconv.*, bytes.*, math.*, regexp) other than a join: distinct key values never fold into one key string; (R9) where an update builds its working item, 'start from a copy of the request's key' is selected by the presence flag of the Data lookup under the request's key and by nothing else – a flag overwritten by another verdict (the condition's) creates items without their key attributes; (R10) 'behaves as a key→item map' includes that a write which reports an error leaves the map as it was: no failure after the first state write in core, the interpreter commits only after success, attribute values are never modified in place (= C08.R1, R2, R5); (R11) the item stored under a key changes only through operations on that key: every reference-typed component the adapters store or hand out is owned by the result (= C14.R1), so re-using a buffer for a write to another key cannot rewrite this one; (R12) the table has no state beyond the confirmed fields – a field added later is classified (never read / derived and kept coherent by every writer of its sources / not decided); (R13) removals made by an update are recorded under the resolved attribute name (= C07.R16); (R14) attribute definitions of an existing table are neither retyped nor removed (= C13.R7).",
+		Decided:    "the representation invariant I1 (SortedKeys is exactly the sorted key set of Data) is preserved by every mutator on every path, and every access to Data uses the table's own key derivation: (R1) only core functions write Table.Data/SortedKeys after construction and each of them is a checked mutator; (R2) path-case analysis of each mutator: net change of Data[k] (absent→present, present→absent, overwrite) is matched by exactly the corresponding insertion (followed by a sort) or binary-search removal of k in SortedKeys, presence being established by a comma-ok lookup of the same key before the change; reset resets both; (R3) the key operand of every Data lookup/update/delete derives from keySchema.GetKey(t.KeySchema, t.AttributesDef, ·) of the same table (or, on the search path, from SortedKeys/index entries); (R4) the map stored under a key is a fresh copy (or the map already stored there), never a caller's map; (R5) UpdateItem on an absent key starts from a copy of the request key; (R7) GetItem's output derives from Data[key] with key derived from the request key, through conversion/copy only. By induction over histories I1 holds in every reachable state, which is what makes GetItem/Scan/ItemCount agree; (R8) no function on the key derivation path calls a text or number transformation (strings.*, strconv.*, bytes.*, math.*, regexp) other than a join: distinct key values never fold into one key string; (R9) where an update builds its working item, 'start from a copy of the request's key' is selected by the presence flag of the Data lookup under the request's key and by nothing else – a flag overwritten by another verdict (the condition's) creates items without their key attributes; (R10) 'behaves as a key→item map' includes that a write which reports an error leaves the map as it was: no failure after the first state write in core, the interpreter commits only after success, attribute values are never modified in place (= C08.R1, R2, R5); (R11) the item stored under a key changes only through operations on that key: every reference-typed component the adapters store or hand out is owned by the result (= C14.R1), so re-using a buffer for a write to another key cannot rewrite this one; (R12) the table has no state beyond the confirmed fields – a field added later is classified (never read / derived and kept coherent by every writer of its sources / not decided); (R13) removals made by an update are recorded under the resolved attribute name (= C07.R16); (R14) attribute definitions of an existing table are neither retyped nor removed (= C13.R7).; (R15) every success return of the engine's Put and Update is reached only through the store into Table.Data, directly or through helpers of which the same holds: a shortcut that answers success before the store ('nothing changed') leaves an upsert on an absent key unwritten.",
 		NotDecided: "contents of items after an update (C07), injectivity of the key encoding (C13), value-level equality of returned items (C10), ownership below the top-level map (C14).",
 		Assumes:    []string{"I1 is assumed at function entry when discharging a mutator (induction hypothesis); the branch 'binary search did not find a key that a lookup just found' is infeasible under I1 and dropped"},
 		Rules: []RuleDef{
@@ -265,6 +265,7 @@ func init() {
 			{ID: "R12", Desc: "the state of a table is the confirmed set of fields: a new field is new state (cache, memo, snapshot) – derived state must be rewritten by every writer of what it derives from (T-FIELD closure)", Run: func(e *Engine) { stateModelClosed(e, "R12", func(k string) bool { return k == "core.Table" }) }},
 			{ID: "R13", Desc: "what an UpdateItem removes is removed from the stored item: removals are recorded under the resolved attribute name (= C07.R16)", Run: aliasRule("R13", c07R16, nil)},
 			{ID: "R14", Desc: "the declared types of the key attributes stay with the table: no operation on an existing table retypes or removes an attribute definition (= C13.R7) – otherwise stored items become unreachable by their keys", Run: aliasRule("R14", c13R7, nil)},
+			{ID: "R15", Desc: "a PutItem or UpdateItem that reports success has stored the item: every success return of the engine's Put and Update is reached only through the store into Table.Data (must-pass-through, through helpers)", Run: c01R15},
 		},
 	})
 }
@@ -480,5 +481,90 @@ func c01R9(e *Engine) {
 	}
 	if n == 0 {
 		e.undecided("R9", "core:create-from-key", "-", "no place starts a working item from the request's key")
+	}
+}
+
+// c01R15: "every GetItem returns the item established by the most recent successful write" needs the successful write to
+// have written. A shortcut that answers success before the store (nothing changed, same item, cache hit) leaves an
+// upsert on an absent key unwritten.
+func c01R15(e *Engine) {
+	cs := e.coreModel()
+	if !e.anchor("R15", "core.Table.Data", cs == nil) {
+		return
+	}
+	direct := map[ssa.Instruction]bool{}
+	for _, a := range e.fieldAccesses(cs.Data, e.all) {
+		if a.Write && a.Kind == "map-update" {
+			direct[a.Instr] = true
+		}
+	}
+	// gapOf(g): a (success) return of g that can be reached from the entry without passing a store into Data – directly or
+	// through a core function of which the same holds. "" when there is none.
+	memo := map[*ssa.Function]string{}
+	var gapOf func(g *ssa.Function, depth int) string
+	gapOf = func(g *ssa.Function, depth int) string {
+		if r, ok := memo[g]; ok {
+			return r
+		}
+		memo[g] = "?" // recursion: not a store
+		if depth > 4 || g.Blocks == nil {
+			return "?"
+		}
+		barrier := map[*ssa.BasicBlock]bool{}
+		instrs(g, func(in ssa.Instruction) {
+			if direct[in] {
+				barrier[in.Block()] = true
+				return
+			}
+			if c, ok := in.(*ssa.Call); ok {
+				if h := c.Call.StaticCallee(); h != nil && e.fnRole(h) == "core" && h != g && gapOf(h, depth+1) == "" {
+					barrier[in.Block()] = true
+				}
+			}
+		})
+		if len(barrier) == 0 {
+			return "?"
+		}
+		seen := map[*ssa.BasicBlock]bool{}
+		work := []*ssa.BasicBlock{g.Blocks[0]}
+		for len(work) > 0 {
+			b := work[len(work)-1]
+			work = work[:len(work)-1]
+			if seen[b] || barrier[b] {
+				continue
+			}
+			seen[b] = true
+			work = append(work, b.Succs...)
+		}
+		ei := errResultIndex(g)
+		bad := ""
+		for _, r := range returnsOf(g) {
+			if !seen[r.Block()] {
+				continue
+			}
+			if ei >= 0 && !isNilConst(retVals(r)[ei]) {
+				continue
+			}
+			bad = e.fname(g) + " at " + e.ipos(r)
+		}
+		memo[g] = bad
+		return bad
+	}
+	n := 0
+	for _, name := range []string{"Table.Put", "Table.Update"} {
+		fn := e.fn("core", name)
+		if !e.anchor("R15", "core."+name, fn == nil) {
+			continue
+		}
+		n++
+		construct := "core." + name + ":success-implies-stored"
+		switch bad := gapOf(fn, 0); bad {
+		case "":
+			e.pass("R15", construct, e.pos(fn.Pos()), "every success return is reached only through the store into Table.Data")
+		case "?":
+			e.undecided("R15", construct, e.pos(fn.Pos()), "no store into Table.Data found on the function's own paths or in the core functions it calls")
+		default:
+			e.fail("R15", construct, e.pos(fn.Pos()), "the success return in %s is reachable without the store into Table.Data: the operation reports success – and returns the resulting item – while a later GetItem finds the old state (on an absent key: nothing)", bad)
+		}
 	}
 }
